@@ -79,11 +79,11 @@ def judge_send(acc, sb, role, case, nonascii):
     msg, _ = G.build_message(case)
     w = b.link.writers[b.side]
     w0, n0 = len(w.written), ep._session.next_num_out
-    rows0 = len(ep._journaler.recover_messages(ep._session, MessageDirection.OUTBOUND, 0, 2**62))
+    rows0 = len(list(ep._journaler.recover_messages(ep._session, MessageDirection.OUTBOUND, 0, 2**62)))
     r = b.w.call(ep.send_msg(msg))
     sb.n += 1
     w1, n1 = len(w.written), ep._session.next_num_out
-    rows1 = len(ep._journaler.recover_messages(ep._session, MessageDirection.OUTBOUND, 0, 2**62))
+    rows1 = len(list(ep._journaler.recover_messages(ep._session, MessageDirection.OUTBOUND, 0, 2**62)))
     tag = "non-ascii" if nonascii else "ascii"
 
     def bad(sig, detail):
